@@ -92,14 +92,24 @@ def sensitivity(only=None, budget=45):
     root = os.path.join(VERIF, "selftest", "mutants")
     failures = 0
     n = 0
+    todo = []
     for prop in sorted(os.listdir(root)):
+        for name in sorted(os.listdir(os.path.join(root, prop))):
+            if name.endswith(".patch") or name.endswith(".diff"):
+                todo.append((prop, name, os.path.join(root, prop, name)))
+    # the changes written by independent sub-agents (seeded/<id>/patch.diff) are part of the same regression set
+    sroot = os.path.join(VERIF, "seeded")
+    for sid in sorted(os.listdir(sroot)) if os.path.isdir(sroot) else []:
+        meta = os.path.join(sroot, sid, "meta.json")
+        if os.path.exists(meta) and os.path.exists(os.path.join(sroot, sid, "patch.diff")):
+            with open(meta) as fh:
+                prop = str(json.load(fh).get("property", sid[:3]))[:3]
+            todo.append((prop, f"seeded-{sid}", os.path.join(sroot, sid, "patch.diff")))
+    for prop, name, patch in todo:
         if only and prop not in only:
             continue
-        for name in sorted(os.listdir(os.path.join(root, prop))):
-            if not name.endswith(".patch") and not name.endswith(".diff"):
-                continue
+        if True:
             n += 1
-            patch = os.path.join(root, prop, name)
             d = tempfile.mkdtemp(prefix="vmut-", dir="/tmp")
             try:
                 subprocess.run(["rsync", "-a", "--exclude", ".git", "--exclude", "__pycache__", "--exclude", "*.log*",
